@@ -2,6 +2,7 @@ import Lean.Data.Json
 import Gemato.Model.ManifestText
 import Gemato.Model.OpenPGP
 import Gemato.Model.Hash
+import Gemato.Model.VerifyDir
 /-
   Line-protocol driver: one JSON request per input line, one JSON reply per
   output line. Strings travel as arrays of code points.
@@ -163,6 +164,103 @@ def opResolveNames (req : Json) : Except String Json := do
     | .ok r => Json.mkObj [("ok", Json.arr (r.toArray.map fun (n, a) => Json.arr #[jStr n, jStr a]))]
     | .error (.unsupported n) => Json.mkObj [("unsupported", jStr n)])])
 
+-- L1 -----------------------------------------------------------------------------------
+open L1 in
+partial def getNode (j : Json) : Except String L1.Node := do
+  let a ← j.getArr?
+  let k ← (a[0]!).getStr?
+  match k with
+  | "x" => pure .dangling
+  | "s" => pure (.special (← (a[1]!).getNat?))
+  | "d" =>
+    let kids ← (← (a[3]!).getArr?).toList.mapM fun kv => do
+      let p ← kv.getArr?
+      pure ((← getStr p[0]!), (← getNode p[1]!))
+    pure (.dir (← (a[1]!).getNat?) (← (a[2]!).getNat?) kids)
+  | "f" =>
+    let o := a[1]!
+    let dig ← (← (← o.getObjVal? "dig").getArr?).toList.mapM fun kv => do
+      let p ← kv.getArr?
+      pure ((← getStr p[0]!), (← getStr p[1]!))
+    let m ← match o.getObjVal? "m" with
+      | .ok Json.null => pure none
+      | .ok mj => do
+        let ma ← mj.getArr?
+        let mk ← (ma[0]!).getStr?
+        if mk == "c" then pure (some MContent.corrupt) else pure (some (MContent.text (← getStr ma[1]!)))
+      | .error _ => pure none
+    pure (.file { dev := ← (← o.getObjVal? "dev").getNat?, stSize := ← (← o.getObjVal? "stsize").getNat?,
+                  size := ← (← o.getObjVal? "size").getNat?, mtime := ← (← o.getObjVal? "mtime").getInt?,
+                  digests := dig, manifest := m })
+  | _ => .error s!"bad node kind {k}"
+
+def jErr : L1.Err → Json
+  | .mismatch p => Json.mkObj [("err", "mismatch"), ("path", jStr p)]
+  | .incompatible => Json.mkObj [("err", "incompatible")]
+  | .crossDevice _ => Json.mkObj [("err", "crossdev")]
+  | .symlinkLoop _ => Json.mkObj [("err", "symlinkloop")]
+  | .invalidPath _ => Json.mkObj [("err", "invalidpath")]
+  | .syntax => Json.mkObj [("err", "syntax")]
+  | .unsigned => Json.mkObj [("err", "unsigned")]
+  | .unsupportedHash => Json.mkObj [("err", "unsupportedhash")]
+  | .os e => Json.mkObj [("err", Json.str s!"os:{repr e}")]
+  | .compress => Json.mkObj [("err", "compress")]
+  | .internal k => Json.mkObj [("err", Json.str s!"internal:{repr k}")]
+  | .abstain => Json.mkObj [("err", "abstain")]
+
+def getHandler (req : Json) : Except String L1.Handler := do
+  match req.getObjVal? "handler" with
+  | .error _ => pure .raise
+  | .ok Json.null => pure .raise
+  | .ok h =>
+    -- {"default": bool, "false_for": [paths]} : returns false for the listed paths (or for all but the listed)
+    let dflt ← (← h.getObjVal? "default").getBool?
+    let exc ← getStrs (← h.getObjVal? "except")
+    pure (.policy fun p => if exc.contains p then !dflt else dflt)
+
+def getOptInt (req : Json) (k : String) : Except String (Option Int) :=
+  match req.getObjVal? k with
+  | .error _ => pure none
+  | .ok Json.null => pure none
+  | .ok j => (j.getInt?).map some
+
+/-- verify_dir: {world, top, path, xdev, handler, last_mtime} -/
+def opVerifyDir (req : Json) : Except String Json := do
+  let root ← getNode (← req.getObjVal? "world")
+  let w : L1.World := ⟨root⟩
+  let top ← getStr (← req.getObjVal? "top")
+  let path ← getStr (← req.getObjVal? "path")
+  let xdev ← (match req.getObjVal? "xdev" with | .ok j => j.getBool? | .error _ => pure true)
+  let h ← getHandler req
+  let lm ← getOptInt req "last_mtime"
+  let r := do
+    let l ← L1.openLoader w top xdev
+    l.assertDirectoryVerifies w path h lm
+  pure (Json.mkObj [("model", match r with
+    | .error e => jErr e
+    | .ok (_, v) => Json.mkObj [("ret", Json.bool v.ret), ("calls", Json.arr (v.calls.toArray.map jStr))])])
+
+/-- lookup: {world, top, api, path, filename} for verify_path / assert_path_verifies / find_path_entry / find_dist_entry -/
+def opLookup (req : Json) : Except String Json := do
+  let root ← getNode (← req.getObjVal? "world")
+  let w : L1.World := ⟨root⟩
+  let top ← getStr (← req.getObjVal? "top")
+  let path ← getStr (← req.getObjVal? "path")
+  let api ← (← req.getObjVal? "api").getStr?
+  let jOptEntry (e : Option Entry) : Json := match e with | none => Json.null | some e => jEntry e
+  let r : Except L1.Err Json := do
+    let l ← L1.openLoader w top
+    match api with
+    | "find_path_entry" => let (_, e) ← l.findPathEntry w path; pure (Json.mkObj [("entry", jOptEntry e)])
+    | "verify_path" => let (_, b) ← l.verifyPath w path; pure (Json.mkObj [("ret", Json.bool b)])
+    | "assert_path_verifies" => let _ ← l.assertPathVerifies w path; pure (Json.mkObj [("ret", Json.bool true)])
+    | "find_dist_entry" =>
+      let fnj ← (match req.getObjVal? "filename" with | .ok j => (match getStr j with | .ok s => pure s | .error _ => throw L1.Err.abstain) | .error _ => throw L1.Err.abstain)
+      let (_, e) ← l.findDistEntry w fnj path
+      pure (Json.mkObj [("entry", jOptEntry e)])
+    | _ => throw .abstain
+  pure (Json.mkObj [("model", match r with | .error e => jErr e | .ok j => j)])
+
 def dispatch (req : Json) : Except String Json := do
   let op ← (← req.getObjVal? "op").getStr?
   match op with
@@ -174,6 +272,8 @@ def dispatch (req : Json) : Except String Json := do
   | "spawn_env" => opSpawnEnv req
   | "hash_schedule" => opHashSchedule req
   | "resolve_names" => opResolveNames req
+  | "verify_dir" => opVerifyDir req
+  | "lookup" => opLookup req
   | _ => .error s!"unknown op {op}"
 
 end Drv
